@@ -43,7 +43,9 @@ def main():
         "check_result_on_patched_repo": res.get("checks", {}),
         "caught_by": caught,
         "first_run": note,
-        "what_i_ran": "tools/seedtest.py seeded/%s %s (applies the patch to /repo, runs the quick check, reverts)" % (name, prop),
+        "what_i_ran": ("tools/seedtest.py --wt seeded/%s %s (quick check pointed at the patched scratch worktree via VERIF_REPO; "
+                       "/repo untouched)" % (name, prop)) if res.get("checks_ran_against") else
+                      "tools/seedtest.py seeded/%s %s (applies the patch to /repo, runs the quick check, reverts)" % (name, prop),
     }
     json.dump(meta, open(os.path.join(d, "meta.json"), "w"), indent=1)
     print(name, "caught_by", caught)
